@@ -34,6 +34,21 @@ TEXT = {
             "per-container history checking with provenance"),
 }
 
+TEXT.update({
+    "C07": ("exploration", "5 C07",
+            "ThreadSanitizer (happens-before from the requested orderings, real parallelism with delay fuzzing) and Miri (C11 store buffers, data-race detection, address reuse, provenance; one interpreter process per seed) run an hb-silent workload: workers share nothing but the containers; the pointee's plain payload is written before publication, read through every handle on every path a pointer can travel, and overwritten by the destructor, so a missing edge is a reported data race.",
+            "ThreadSanitizer + Miri data-race detection on an hb-silent workload"),
+    "C11": ("exploration", "5 C11",
+            "Thread-lifecycle workload under the token scheduler (thread start / exit / thread-local destructors scheduled too) and free-running under ASan: node count <= 2 x peak threads alive, no two threads own a node at overlapping times (ownership intervals recorded inside real ownership), a thread's node is stable, operations after the crate's TLS is gone work; ledger, conservation law and histories during churn.",
+            "structural invariant monitors over the node-list hooks during scheduled thread churn"),
+    "C14": ("exploration", "5 C14",
+            "Seeded random single-threaded programs run under the default, the fallback-only and the lock-based strategy and compared with an executable plain-variable model after every step: identities exactly, counts through the conservation law (every step is a quiescent point), tight reclamation, clean tear-down; also under ASan with std Arc and under Miri.",
+            "reference-model monitor over random API programs, three strategies"),
+    "C15": ("exploration", "5 C15",
+            "The finite grid of pointer kinds x pointee layouts x count states is enumerated completely; each cell checks the raw round trip, as_ptr/into_ptr agreement, inc/dec deltas, the null mapping and a container round trip; run natively, under AddressSanitizer and under Miri (which decide 'never dereferenced').",
+            "exhaustive law grid under Miri / ASan"),
+})
+
 NOTE = {
     "C01": "Trusted: the harness pointer type and scheduler; TOKEN mode explores sequentially consistent interleavings only; SC-only ordering weakenings are out of reach (DESIGN.md).",
 }
